@@ -67,9 +67,12 @@ func (o *ObjectSchema) ReflectedType() reflect.Type {
 	return reflect.TypeOf(map[string]any{})
 }
 
+// GetDefaults returns the decoded default values of the properties. The constructors decode them, and so does linking
+// (ApplyNamespace) for an object that was rebuilt from its description. An object that has seen neither decodes them
+// per call and does not keep the result: the data functions that call this may run concurrently.
 func (o *ObjectSchema) GetDefaults() map[string]any {
 	if o.defaultValues == nil {
-		o.defaultValues = extractObjectDefaultValues(o.PropertiesValue)
+		return extractObjectDefaultValues(o.PropertiesValue)
 	}
 	return o.defaultValues
 }
@@ -79,6 +82,11 @@ func (o *ObjectSchema) IDUnenforced() bool {
 }
 
 func (o *ObjectSchema) ApplyNamespace(objects map[string]*ObjectSchema, namespace string) {
+	if o.defaultValues == nil {
+		// An object rebuilt from its description comes without its decoded defaults. Linking is part of building the
+		// schema, before it is used: decode them here, once, rather than in the first Unserialize that needs them.
+		o.defaultValues = extractObjectDefaultValues(o.PropertiesValue)
+	}
 	for _, property := range o.PropertiesValue {
 		property.ApplyNamespace(objects, namespace)
 	}
